@@ -169,6 +169,7 @@ let run_case oc (c : case) =
             | TrRelativeName -> "relative_name"
             | TrHiddenViaLink -> "hidden_reached_via_symlink"
             | TrForceNewParent -> "forcebackup_below_new_directory"
+            | TrHopLimit -> "symlink_hop_limit"
             | TrRemovesRoot -> "removes_view_root"))
             (triggers cfg o !w);
           let before = List.length (dump_trace !w) in
